@@ -26,13 +26,20 @@ CFG = {
         "constructor ends with is read from Cap() and fed to the model as input. Not compared (by the property): Cap(), "
         "Unread* directly after Grow. Panics are compared by the CLASS of the panic value (ErrTooLarge / negative count / truncation / errNegativeRead / invalid Write count / index-or-slice runtime error / other runtime error / other) between tex.Buffer, bytes.Buffer and the model. ErrTooLarge: Grow beyond max_alloc (2^48, a parameter of the model; the harness only generates sizes >= 2^49 or small ones) panics with ErrTooLarge on both sides (c11_grow_too_large); sizes between the worst-case-allocatable bound and max_alloc depend on the memory actually available and are excluded by op_ok through the capacity bound k. Left out: a writer returning a "
         "negative count and a reader delivering more than it was offered (excluded by op_ok). "
+        "Class par-eq (instances confined to their own goroutine, really parallel) is sound under every schedule because "
+        "instances share nothing by contract: each emitted round is judged by Coq against the sequential model of its own "
+        "history; the Go-side suspect filter only selects what is shown and can cause a miss, never an alarm. "
         "ReWrite addresses the storage from its start; the contract fixes the addressing only while the consumed "
         "prefix is known (no write/Grow/ReadFrom since a read moved the offset) - ReWrite steps outside that are "
         "checked against the concrete model only (case_accept), not by case_holds. No axioms."),
     "rule": ("one case = one history (12..33 operations, up to 51 in the thorough tier) from a zero value / NewBuffer / "
              "NewBufferString / NewSizedBuffer start, next operation and sizes drawn knowing Len() and Cap() of the running "
              "tex.Buffer; eq-* classes run tex.Buffer and bytes.Buffer side by side, tex-* classes tex.Buffer alone "
-             "(ReWrite, NewSizedBuffer); a case is non-trivial when at least two of its operations moved bytes (wrote "
+             "(ReWrite, NewSizedBuffer); class par-eq = private instances in parallel: 8 goroutines behind a spin barrier, each with "
+             "its OWN tex.Buffer/bytes.Buffer pair, 25 000 rounds each (100 000 thorough) of 12..21 operations heavy in 2/3/4-byte "
+             "WriteRune with runes, payloads and reader chunks distinct per goroutine; the first two, the last and up to six "
+             "rounds per goroutine that an (untrusted) Go comparison flags are emitted as ordinary two-sided cases; "
+             "a case is non-trivial when at least two of its operations moved bytes (wrote "
              "something or consumed at least one byte); distinct = distinct Coq term (operations + everything observed)"),
     "trusted": ["bytes.Buffer of the installed Go toolchain as the reference implementation (observed, not proved)",
                 "scripted io.Reader / io.Writer of the harness (deliver exactly the scripted chunk / count / error)",
